@@ -81,6 +81,9 @@ class Session:
 
     def validate(self, recs, name, module="TraceScpi", chunk=1500, workers=8, max_reject=6):
         """Trace validation of recorded lines; every line is examined even after a rejection."""
+        # one TLC start costs seconds (all interface constants are evaluated): not more files than parallel workers
+        nw = workers if self.tier == "quick" else 14
+        chunk = max(chunk, -(-len(recs) // nw)) if chunk < 10 ** 8 else chunk
         files = []
         for k in range(0, len(recs), chunk):
             p = os.path.join(self.wd, "%s.%04d.ndjson" % (name, k // chunk))
